@@ -11,7 +11,10 @@ COQ_TARGETS = ["Corr/LimCorr.vo"]
 def _stale_forget_class(case, v):
     """known-finding class predicate: the failing key's lookup hit a stale-forget event at or before the failing step"""
     key = case["steps"][v["step"]]["req"][0]
-    return any(s.get("sf") and s["req"][0] == key for s in case["steps"][:v["step"] + 1])
+    mine = [s for s in case["steps"][:v["step"] + 1] if s["req"][0] == key]
+    # in the class: the key went through a stale-forget event (entry reclaimed by a sweep that a LATER-stamped call triggered after
+    # the entry was written) and never lost a live entry in any other way ("lost": no call since the write reached the expiry)
+    return any(s.get("sf") for s in mine) and not any(s.get("lost") for s in mine)
 
 
 def run_modes(ctx, pid, modes, props_of_interest, rule, profile="release", known_class=None):
